@@ -281,7 +281,7 @@ type activeLoop struct {
 	// writes at objects it allocates itself: those arrays keep their entry contents there
 	entryK   int64
 	havocSym map[string]*Term
-	broken   map[string]bool // shared with the dry runs: arrays for which this does not hold
+	broken   map[string]bool  // shared with the dry runs: arrays for which this does not hold
 	kept     map[string]*Term // adopted: name -> heap term on loop entry
 }
 
